@@ -42,6 +42,10 @@ pub struct FaultsSpec {
     pub file_create_err: u32,
     #[serde(default)]
     pub file_write_err: u32,
+    #[serde(default)]
+    pub disk_stall: u32,
+    #[serde(default)]
+    pub disk_stall_max_ms: u32,
 }
 
 impl Default for FaultsSpec {
@@ -65,6 +69,8 @@ impl Default for FaultsSpec {
             postpone_max_us: 0,
             file_create_err: 0,
             file_write_err: 0,
+            disk_stall: 0,
+            disk_stall_max_ms: 0,
         }
     }
 }
@@ -90,6 +96,8 @@ impl FaultsSpec {
             postpone_max_us: self.postpone_max_us,
             file_create_err: self.file_create_err,
             file_write_err: self.file_write_err,
+            disk_stall: self.disk_stall,
+            disk_stall_max_ms: self.disk_stall_max_ms,
         }
     }
     pub fn any(&self) -> bool {
